@@ -546,7 +546,9 @@ def _pe_setup(ctx, E, grid, n, cls, admissible, uniform, amp=1.0, lkind=None):
   tref = np.full(n, 250.0) if rng.random() < 0.3 else np.sort(rng.uniform(200.0, 300.0, n))
   keep = _keep(grid)
   ms = grid.modal_shape
-  oro = np.asarray(grid.clip_wavenumbers(grid.to_modal(jnp.asarray(rng.uniform(0, 0.02, grid.nodal_shape)))))
+  raw_oro = bool(rng.random() < 0.5)   # see _sw_setup: untruncated orography is admissible
+  oro = grid.to_modal(jnp.asarray(rng.uniform(0, 0.02, grid.nodal_shape)))
+  oro = np.asarray(oro if raw_oro else grid.clip_wavenumbers(oro))
   l = np.arange(ms[1])
 
   def rm(k, a):
@@ -573,7 +575,7 @@ def _pe_setup(ctx, E, grid, n, cls, admissible, uniform, amp=1.0, lkind=None):
   eq = E.CL[cls](tref, jnp.asarray(oro), coords, specs)
   info = dict(cls=cls, layers=n, levels=lk, boundaries=b.tolist(), tref=tref.tolist(), R=specs.R, g=specs.g,
               kappa=specs.kappa, omega=specs.angular_velocity, admissible=admissible, uniform_tracer=uniform,
-              tracers=sorted(tr))
+              tracers=sorted(tr), orography='raw' if raw_oro else 'clipped')
   return eq, coords, specs, tref, oro, kw, info
 
 
@@ -701,8 +703,13 @@ def _sw_setup(ctx, E, grid, n, orography):
                                  gravity_acceleration=float(rng.uniform(0.5, 2.0)), scale=E.scales.DEFAULT_SCALE)
   coords = E.cs.CoordinateSystem(horizontal=grid, vertical=E.sc.SigmaCoordinates.equidistant(n))
   ref = rng.uniform(0.5, 2.0, n)
-  oro = (np.asarray(grid.clip_wavenumbers(grid.to_modal(jnp.asarray(rng.uniform(0, 0.05, grid.nodal_shape)))))
-         if orography else None)
+  # the orography is user-supplied modal data that the library never requires to be truncated: half of the cases keep
+  # the raw transform (energy at the top total wavenumber; still zero outside the mask, the domain of the theorems)
+  raw_oro = (orography == 'raw') if isinstance(orography, str) else bool(rng.random() < 0.5)
+  oro = None
+  if orography:
+    oro = grid.to_modal(jnp.asarray(rng.uniform(0, 0.05, grid.nodal_shape)))
+    oro = np.asarray(oro if raw_oro else grid.clip_wavenumbers(oro))
 
   def rm(a):
     return rng.standard_normal((n,) + ms) * keep * a / (1.0 + l) ** 1.5
@@ -711,8 +718,8 @@ def _sw_setup(ctx, E, grid, n, orography):
   z[:, 0, 0] = 0
   d[:, 0, 0] = 0
   eq = E.sw.ShallowWaterEquations(coords, specs, None if oro is None else jnp.asarray(oro), ref)
-  info = dict(layers=n, densities=dens.tolist(), reference_potential=ref.tolist(), orography=orography,
-              omega=specs.angular_velocity)
+  info = dict(layers=n, densities=dens.tolist(), reference_potential=ref.tolist(),
+              orography=('raw' if raw_oro else 'clipped') if orography else None, omega=specs.angular_velocity)
   return eq, coords, specs, ref, oro, (z, d, p), info
 
 
@@ -746,7 +753,7 @@ def _corr_sw(ctx, E):
   dummy_specs = E.pe.PrimitiveEquationsSpecs.from_si()
   for ci in range(ctx.n(2, 6)):
     n = int(rng.integers(1, 4))
-    eq, coords, specs, ref, oro, (z, d, p), info = _sw_setup(ctx, E, grid, n, orography=bool(ci % 2 == 0))
+    eq, coords, specs, ref, oro, (z, d, p), info = _sw_setup(ctx, E, grid, n, orography=['raw', None, 'clipped'][ci % 3])
     cfg = D.DynCfg(grid, coords.vertical, dummy_specs, np.ones(n), np.zeros(ms), True)
     swt = _sw_tokens(eq, oro, ref)
     # single operations on arbitrary (unclipped) states
@@ -758,6 +765,16 @@ def _corr_sw(ctx, E):
              f'inv F swinverse {cfg.tokens} {swt} {fbits(eta)} {_sw_state_tok(cfg, any_state)}']
     with ctx.impl('corr:sw-raises', inp):
       impls = [eq.explicit_terms(any_state), eq.implicit_terms(any_state), eq.implicit_inverse(any_state, eta)]
+      # sentinel (T11.1 on the real code): on an ADMISSIBLE state (in S) and any orography inside the mask, truncated or
+      # not, every explicit / implicit tendency and the implicit inverse lie in S: exact zeros off `keep`
+      adm = E.sw.State(jnp.asarray(z), jnp.asarray(d), jnp.asarray(p))
+      for opn, res in (('explicit_terms', eq.explicit_terms(adm)), ('implicit_terms', eq.implicit_terms(adm)),
+                       ('implicit_inverse', eq.implicit_inverse(adm, eta))):
+        worst = max(_off(v, keep) for v in _np_leaves(res).values())
+        ctx.expect(worst == 0.0, f'sw-terms-in-S:{opn}', f'ShallowWaterEquations.{opn} of an admissible state has a non-zero '
+                   f'coefficient outside the mask / at the clipped wavenumber: max |c| = {worst:.3e}',
+                   dict(inp, vorticity=z.tolist(), divergence=d.tolist(), potential=p.tolist(),
+                        orography_modal=None if oro is None else oro.tolist()))
       # a leapfrog trajectory with the default filter stack
       dt, alpha, k = float(rng.choice([0.01, 0.02])), float(rng.choice([0.5, 0.7])), 3
       params = _filter_params(rng)
@@ -945,7 +962,7 @@ def _probes_sw(ctx, E):
     gname = _gname(M, 'quadratic', impl)
     keep = _keep(grid)
     n = int(rng.integers(1, 4))
-    eq, coords, specs, ref, oro, (z, d, p), info = _sw_setup(ctx, E, grid, n, orography=bool(rng.random() < 0.7))
+    eq, coords, specs, ref, oro, (z, d, p), info = _sw_setup(ctx, E, grid, n, orography=['raw', 'clipped', None, 'raw'][ci % 4])
     dt, alpha = float(rng.choice([0.005, 0.01])), float(rng.choice([0.5, 0.7]))
     params = _filter_params(rng)
     filters, ftok = _filters(E, grid, dt, stack, True, params)
